@@ -35,4 +35,5 @@ def run(F, tier):
                         "parse_steps": ["%s %s<%s>" % (s.kind, s.tag, (s.ty or '').split('::')[-1]) for s in tm.g.sites][:12],
                         "appends": [".".join(a.path or ("?",)) for a in tm.w.appends][:12]})
     accept.u6(rep, F, "parser")
+    accept.u7(rep, F, "parser")
     return rep
